@@ -69,6 +69,9 @@ def _deltas(kind, tier, seed):
         out.append([0.0, 0.0, 0.0, 1.0, 0.0, 0.0])
         out.append([0.5, 0.0, -1.0, 0.0, 0.0, -1.0])
         out.append([0.0, 1.0, -2.0, 0.6, 0.0, 0.8])
+        u = 1.0 / 3.0 ** 0.5  # float norm is exactly 1.0 while the sum of squares is 1 + 2^-52
+        out.append([0.1, 0.2, 0.3, u, u, u])
+        out.append([0.0, 0.0, 0.0, -u, u, -u])
         if tier == "thorough":
             n = 1 - 1e-12
             out.append([1.0, 0.0, 0.0, 0.0, n, 0.0])
@@ -364,9 +367,22 @@ def _eval_inner(case, c):
         c.phys("p [+] delta = p (+) Exp(delta)", kind, got, exp, sc)
         c.phys("p [+] delta vs impl p (+) Exp(delta)", kind, got, I.comps(pa + I.mk_pose(kind, ex)), sc)
         q = pa
-        q += np.array(d, dtype=float)
+        darr = np.array(d, dtype=float)
+        q += darr
         c.phys("p += delta", kind, q, exp, sc)
         if _stored(pa) != a0:
             c.msgs.append("boxplus mutated its operand")
+        if darr.tolist() != [float(x) for x in d]:
+            c.msgs.append("boxplus mutated the increment array")
+        if kind == "SE3":
+            # outside the documented domain (|delta_r| > 1) the value is not judged, but operands must still not be mutated
+            big = np.array([0.1, 0.2, 0.3, 0.9, -0.8, 0.7])
+            keep = big.copy()
+            r_ = pa + big
+            c.nops += 1
+            if not np.array_equal(big, keep) or _stored(pa) != a0:
+                c.msgs.append("boxplus with |delta_r| > 1 mutated an operand")
+            if not all(np.isfinite(I.comps(r_))):
+                c.msgs.append("boxplus with |delta_r| > 1 returned a non-finite pose")
         return
     raise ValueError(t)
